@@ -49,7 +49,7 @@ impl Prop for Postfilter {
         4 * 42 + 16
     }
     fn cases(&self, tier: Tier) -> u32 {
-        tier.pick(1_200, 30_000)
+        tier.pick(8_000, 120_000)
     }
     fn decode(&self, t: &mut Tape, _: Tier) -> Case {
         let rate = *t.pick(RATES);
